@@ -1,35 +1,11 @@
-"""Per-property configuration of bin/check."""
+"""Per-property configuration of bin/check: one fragment per property in checks/props/Cnn.py (PROP = dict(...))."""
+import os, importlib.util
 
-COMMON_TRUST = [
-    "Go compiler and runtime",
-]
-
-
-def _c09_nontrivial(op, out):
-    # a `laws` line whose premises are met by values that are not all syntactically identical
-    t = op.split(" ", 1)
-    if t[0] != "laws":
-        return True
-    try:
-        aa, ab, ba, bc, ac, ha, hb = out.split()
-    except ValueError:
-        return False
-    return ab == "0" or (int(ab) <= 0 and int(bc) <= 0)
-
-
-PROPS = {
-    "C09": dict(
-        lean_modules=["Octo.Props.C09"],
-        required_theorems=["Octo.C09.cmp_refl", "Octo.C09.cmp_antisymm", "Octo.C09.cmp_trans", "Octo.C09.hash_congr",
-                           "Octo.C09.hashMany_congr", "Octo.C09.C09_full"],
-        nontrivial=_c09_nontrivial,
-        rule="ops: cmp/equal on all pairs and hash on every value of a 66-value edge universe (NaNs, +-0, +-Inf, MinInt64, "
-             "same instant in several locations, nested lists/structs/tuples), `laws a b c` on triples of the universe "
-             "(sampled on quick, all on thorough) and on random deep values with near-copies; non-trivial = a laws line "
-             "whose premises hold (a~b, or a<=b<=c)",
-        exhaustive=dict(quick=False, thorough=True),
-        assumptions=["float bit patterns are 64-bit (Value.wf)", "time values lie in the Int64 UnixNano range",
-                     "btree/hashmap libraries behave as ordered/hashed containers given a total preorder and a congruent hash"],
-        trusted=COMMON_TRUST,
-    ),
-}
+PROPS = {}
+_d = os.path.join(os.path.dirname(os.path.abspath(__file__)), "props")
+for _fn in sorted(os.listdir(_d)):
+    if _fn.endswith(".py") and _fn[0] == "C":
+        _spec = importlib.util.spec_from_file_location("prop_" + _fn[:-3], os.path.join(_d, _fn))
+        _m = importlib.util.module_from_spec(_spec)
+        _spec.loader.exec_module(_m)
+        PROPS[_fn[:-3]] = _m.PROP
